@@ -94,6 +94,10 @@ namespace
         return;
       }
     wrapper_cpp::WorldBuilderWrapper &cpp = *cpp_holder;
+    // the world with random models: a second native twin receives exactly the query stream of the C++ wrapper (compositions only), so
+    // that seed and stream of the wrapper can be compared as well
+    std::unique_ptr<World> native_for_cpp;
+    if (o.random_models) native_for_cpp = std::make_unique<World>(file, false, "", seed);
     // the wrapper must hand its arguments to the world unchanged: same set of declaration files as the native world
     ctx.count(c_files);
     const std::string cpp_files = list_files();
@@ -104,8 +108,18 @@ namespace
     {
       ctx.violation("C16/" + fn, JObj().str("what", fn + " differs from the native World").raw("args", desc).raw("point", jarr(p)).num("depth", depth).str("extra", extra).str("world", text).done());
     };
-    const auto probes = worlds::lattice(o.spherical);
-    const auto probes2 = worlds::lattice2(o.spherical);
+    auto probes = worlds::lattice(o.spherical);
+    auto probes2 = worlds::lattice2(o.spherical);
+    // depths just above / at / below the reference surface (an application with topography passes negative depths)
+    {
+      const double su = o.spherical ? 1.0 : 1e5;
+      for (double x : {-4.5, 0.5, 2.5}) for (double y : {-1.2, 2.0}) for (double d : {-5e3, -1.0, -1e-3, -1e-12, 1e-12}) probes.push_back({x*su, y*su, d});
+      for (double a : {0.7, 5.9}) for (double d : {-5e3, -1e-3, 1e-12})
+          {
+            if (!o.spherical) probes2.push_back({a*1e5, CART_TOP - d, d});
+            else { const double r = R_EARTH - d, ang = a * PI / 180.0; probes2.push_back({r*std::cos(ang), r*std::sin(ang), d}); }
+          }
+    }
     std::vector<Request> reqs;
     for (auto &a : ATOMS) reqs.push_back({a});
     for (auto &a : ATOMS) for (auto &b : ATOMS) reqs.push_back({a, b});
@@ -144,6 +158,7 @@ namespace
             if (!biteq(v, w)) bad("composition_3d", p, depth, std::to_string(c));
             // random composition models draw a number per query: keep the C++ wrapper in step with a matching native draw
             if (!o.random_models && !biteq(cpp.composition_3d(p[0], p[1], p[2], depth, c), w)) bad("cpp.composition_3d", p, depth, std::to_string(c));
+            if (o.random_models && !biteq(cpp.composition_3d(p[0], p[1], p[2], depth, c), native_for_cpp->composition(p, depth, c))) bad("cpp.composition_3d/random-model-stream", p, depth, std::to_string(c));
           }
         ctx.eval(6);
       }
@@ -202,6 +217,44 @@ namespace
     if (idx % 17 == 3) ctx.sample(desc);
     if (chdir("/verif") != 0) _exit(3);
   }
+  // file names reach the world unchanged: names with blanks at either end or inside, two files whose names differ only by a trailing blank
+  void run_filenames(uint64_t, Ctx &ctx)
+  {
+    const std::string dir = G().rundir + "/names" + std::to_string(G().shard_id);
+    (void)!system(("rm -rf '" + dir + "' && mkdir -p '" + dir + "'").c_str());
+    const std::vector<std::string> names = {"w.wb", "w.wb ", " w.wb", "w .wb", "w.wb\t", "w.wb.", "w.WB", "w.wb  ", "w.wb\n"};
+    auto text_of = [](size_t i) { return world(coord(false), {"{\"model\":\"mantle layer\",\"name\":\"m\",\"coordinates\":[[-1e6,-1e6],[1e6,-1e6],[1e6,1e6],[-1e6,1e6]],\"temperature models\":[{\"model\":\"uniform\",\"temperature\":" + std::to_string(100 + 11*i) + "}]}"}); };
+    for (size_t i = 0; i < names.size(); ++i) { std::ofstream f(dir + "/" + names[i]); f << text_of(i); }
+    const P3 p = {{0, 0, CART_TOP - 1e5}};
+    for (size_t i = 0; i < names.size(); ++i)
+      {
+        const std::string path = dir + "/" + names[i];
+        const double want = 100 + 11.0*static_cast<double>(i);
+        auto bad = [&](const std::string &who, const std::string &what)
+        { ctx.violation("C16/file-name-not-passed-unchanged/" + who, JObj().str("what", what).str("file_name", path).num("temperature_configured_in_that_file", want).done()); };
+        ctx.eval();
+        try { World nat(path, false, "", 1); if (nat.temperature(p, 1e5) != want) { ctx.violation("harness/C16-native-world-reads-another-file", JObj().str("file", path).done()); continue; } }
+        catch (const std::exception &e) { ctx.violation("harness/C16-native-world-cannot-open", JObj().str("file", path).str("what", std::string(e.what()).substr(0, 200)).done()); continue; }
+        void *cw = nullptr;
+        try
+          {
+            create_world(&cw, path.c_str(), nullptr, nullptr, 1);
+            double t = 0; temperature_3d(cw, p[0], p[1], p[2], 1e5, &t);
+            if (t != want) bad("create_world", "the C world answers " + num(t) + ": it was built from another file");
+            release_world(cw);
+          }
+        catch (const std::exception &e) { bad("create_world", std::string("create_world threw where the native World reads the file: ") + std::string(e.what()).substr(0, 200)); }
+        try
+          {
+            wrapper_cpp::WorldBuilderWrapper cpp(path, false, "", 1);
+            const double t = cpp.temperature_3d(p[0], p[1], p[2], 1e5);
+            if (t != want) bad("cpp-wrapper", "the C++ wrapper answers " + num(t) + ": it was built from another file");
+          }
+        catch (const std::exception &e) { bad("cpp-wrapper", std::string("the C++ wrapper threw where the native World reads the file: ") + std::string(e.what()).substr(0, 200)); }
+      }
+    ctx.nontrivial();
+  }
+
   // free-running ThreadSanitizer pass: one C handle and one C++ wrapper object shared by several threads (separate binary)
   void run_tsan(bool thorough, uint64_t, Ctx &ctx)
   {
@@ -243,7 +296,9 @@ int main(int argc, char **argv)
   return driver(argc, argv, spec, [](const std::string &tier)
   {
     const bool th = tier == "thorough";
-    std::vector<Suite> s(2);
+    std::vector<Suite> s(3);
+    s[2].name = "filenames"; s[2].n = 1; s[2].run = run_filenames;
+    s[2].bound = "9 file names that differ by leading / trailing / inner blanks, tab, newline, dot, case: each holds its own uniform temperature; C interface and C++ wrapper must read the named file like the native World does";
     s[1].name = "tsan"; s[1].n = 1; s[1].run = [th](uint64_t i, Ctx &c) { run_tsan(th, i, c); }; s[1].watchdog_s = 900;
     s[1].bound = "ThreadSanitizer build, free running: 8 threads share one C handle and one C++ wrapper object (temperature / composition with different numbers / properties, 2-D and 3-D) on 4 | 8 worlds; no report, all values equal the native single-threaded answers";
     s[0].name = "wrappers"; s[0].n = 4*3*4*3; s[0].run = run;
